@@ -7,8 +7,9 @@
 //	-mode exec   -in cases.ndjson -out trace.ndjson [-only id,id] [-par 4] [-timeout ms] [-maxhang n]
 //	-mode worker (internal: one case per stdin line, one result per stdout line)
 //
-// Every case runs on a fresh engine in a child process; a CALL that does not return within the
-// timeout is outcome "hang" (the child is killed), a dead child is outcome "crash".
+// Every case runs on a fresh engine in a child process; a case on which the child burns more than the
+// CPU budget (or that exceeds the wall-clock timeout) is outcome "hang" (the child is killed), a dead
+// child is outcome "crash".
 package main
 
 import (
@@ -20,7 +21,6 @@ import (
 	"math/rand"
 	"os"
 	"os/exec"
-	"sort"
 	"strconv"
 	"strings"
 	"sync"
@@ -138,6 +138,12 @@ func runCase(c *Case) {
 func worker() {
 	in := bufio.NewReaderSize(os.Stdin, 1<<20)
 	out := bufio.NewWriter(os.Stdout)
+	// warm-up (engine start-up costs seconds of CPU on a loaded machine and must not count against a case)
+	warm := &Case{Prog: &Prog{Params: []Param{{"x", "inout"}}, Args: []Val{Int(1)},
+		Body: &Stmt{K: "block", Body: []*Stmt{{K: "set", V: "x", E: Op("plus", Var("x"), Lit(Int(1)))}, {K: "ins", E: Var("x")}}}}}
+	runCase(warm)
+	out.WriteString("READY\n")
+	out.Flush()
 	for {
 		line, err := in.ReadBytes('\n')
 		if len(line) > 1 {
@@ -172,7 +178,24 @@ func spawn() *child {
 	if err := cmd.Start(); err != nil {
 		vio.Fatal("cannot start worker: %v", err)
 	}
-	return &child{cmd: cmd, in: in, out: bufio.NewReaderSize(out, 1<<20)}
+	ch := &child{cmd: cmd, in: in, out: bufio.NewReaderSize(out, 1<<20)}
+	ready := make(chan error, 1)
+	go func() {
+		line, err := ch.out.ReadString('\n')
+		if err == nil && strings.TrimSpace(line) != "READY" {
+			err = fmt.Errorf("unexpected worker greeting %q", line)
+		}
+		ready <- err
+	}()
+	select {
+	case err := <-ready:
+		if err != nil {
+			vio.Fatal("worker did not start: %v", err)
+		}
+	case <-time.After(5 * time.Minute):
+		vio.Fatal("worker did not become ready within 5 minutes")
+	}
+	return ch
 }
 
 func (ch *child) kill() {
@@ -182,7 +205,29 @@ func (ch *child) kill() {
 }
 
 // run sends one case and waits for the result; on timeout or death the child is replaced.
-func (ch *child) run(c *Case, timeout time.Duration) (*Case, *child) {
+// cpuTime returns the CPU time (user+system, all threads) the process has consumed so far.
+func cpuTime(pid int) time.Duration {
+	b, err := os.ReadFile(fmt.Sprintf("/proc/%d/stat", pid))
+	if err != nil {
+		return 0
+	}
+	s := string(b)
+	if i := strings.LastIndexByte(s, ')'); i >= 0 { // the command name may contain spaces
+		s = s[i+1:]
+	}
+	f := strings.Fields(s) // f[0] is the state (field 3 of stat); utime and stime are fields 14 and 15
+	if len(f) < 13 {
+		return 0
+	}
+	ut, _ := strconv.ParseInt(f[11], 10, 64)
+	st, _ := strconv.ParseInt(f[12], 10, 64)
+	return time.Duration(ut+st) * (time.Second / 100) // USER_HZ = 100
+}
+
+// run sends one case and waits for the result. The case is a "hang" when the child has burnt cpu of
+// CPU time on it (independent of how loaded the machine is: an ordinary case needs a few 10 ms) or
+// when the wall-clock timeout passes.
+func (ch *child) run(c *Case, timeout, cpu time.Duration) (*Case, *child) {
 	b, _ := json.Marshal(c)
 	type res struct {
 		line []byte
@@ -203,18 +248,28 @@ func (ch *child) run(c *Case, timeout time.Duration) (*Case, *child) {
 		c.Got = &Got{Err: kind, Vars: []Val{}, Log: []Val{}, Sel: []Val{}}
 		return c, spawn()
 	}
-	select {
-	case r := <-done:
-		if r.err != nil || len(r.line) < 2 {
-			return fail("crash")
+	cpu0 := cpuTime(ch.cmd.Process.Pid)
+	deadline := time.After(timeout)
+	tick := time.NewTicker(100 * time.Millisecond)
+	defer tick.Stop()
+	for {
+		select {
+		case r := <-done:
+			if r.err != nil || len(r.line) < 2 {
+				return fail("crash")
+			}
+			var o Case
+			if err := json.Unmarshal(r.line, &o); err != nil {
+				return fail("crash")
+			}
+			return &o, ch
+		case <-tick.C:
+			if cpuTime(ch.cmd.Process.Pid)-cpu0 > cpu {
+				return fail("hang")
+			}
+		case <-deadline:
+			return fail("hang")
 		}
-		var o Case
-		if err := json.Unmarshal(r.line, &o); err != nil {
-			return fail("crash")
-		}
-		return &o, ch
-	case <-time.After(timeout):
-		return fail("hang")
 	}
 }
 
@@ -228,7 +283,8 @@ func main() {
 	depth := flag.Int("depth", 4, "")
 	nodes := flag.Int("nodes", 12, "")
 	par := flag.Int("par", 4, "worker processes")
-	timeoutMs := flag.Int("timeout", 8000, "per-case timeout (ms)")
+	timeoutMs := flag.Int("timeout", 60000, "per-case wall-clock timeout (ms)")
+	cpuMs := flag.Int("cpu", 3000, "per-case CPU-time budget of the worker process (ms); exceeding it is outcome hang")
 	idBase := flag.Int("idbase", 0, "")
 	maxHang := flag.Int("maxhang", 25, "stop executing after this many hangs/crashes (remaining cases are reported as skipped)")
 	flag.Parse()
@@ -289,7 +345,6 @@ func main() {
 	var wg sync.WaitGroup
 	var mu sync.Mutex
 	hangs := 0
-	var durs []time.Duration
 	next := make(chan int)
 	for w := 0; w < *par; w++ {
 		wg.Add(1)
@@ -303,51 +358,14 @@ func main() {
 				if stop {
 					continue
 				}
-				// adaptive timeout: 300 x the median duration of the completed cases, at least 4 s, at most the
-				// -timeout flag (the machine may be heavily loaded); a per-case tmo lowers the cap
 				capMs := *timeoutMs
 				if cases[i].Tmo > 0 && cases[i].Tmo < capMs {
 					capMs = cases[i].Tmo
 				}
-				mu.Lock()
-				t := capMs
-				if len(durs) >= 8 {
-					d := append([]time.Duration{}, durs...)
-					sort.Slice(d, func(a, b int) bool { return d[a] < d[b] })
-					if m := int(d[len(d)/2].Milliseconds()) * 300; m < t {
-						t = m
-					}
-					if t < 4000 {
-						t = 4000
-					}
-					if t > capMs {
-						t = capMs
-					}
-				}
-				mu.Unlock()
-				start := time.Now()
-				results[i], ch = ch.run(cases[i], time.Duration(t)*time.Millisecond)
-				if results[i].Got.Err == "hang" && cases[i].Tmo == 0 && t < capMs {
-					// an unexpected hang under the adaptive timeout may be a load spike: one retry with a longer one
-					t2 := 2 * t
-					if t2 < 8000 {
-						t2 = 8000
-					}
-					if t2 > capMs {
-						t2 = capMs
-					}
-					cases[i].Got = nil
-					start = time.Now()
-					results[i], ch = ch.run(cases[i], time.Duration(t2)*time.Millisecond)
-				}
+				results[i], ch = ch.run(cases[i], time.Duration(capMs)*time.Millisecond, time.Duration(*cpuMs)*time.Millisecond)
 				mu.Lock()
 				if e := results[i].Got.Err; e == "hang" || e == "crash" {
 					hangs++
-				} else {
-					durs = append(durs, time.Since(start))
-					if len(durs) > 60 {
-						durs = durs[len(durs)-60:]
-					}
 				}
 				mu.Unlock()
 			}
